@@ -80,6 +80,25 @@ def run(ctx):
         if extra > 0:
             ctx.notes.append("%d further violations not written out" % extra)
             ctx.violations += extra
+    # grammar-extras: the same question for expressions under a node tag, on the build with the feature on
+    vhx = cargo_build(features="extras", variant="extras")
+    cases, rs, n = gen_val(ctx, "tag", 4, 3)
+    for r in rs:
+        ctx.cov["states"] += r.distinct
+        ctx.cov["transitions"] += r.generated
+    rep = run_json([vhx, "c06-replay", "--cases", cases], timeout=6000)
+    os.remove(cases)
+    for k in total:
+        total[k] += rep[k]
+    ctx.cov["engines"].append({"name": "MC_Validator slice tag (grammar-extras build)", "role": "Diverges/Guarded computed by TLC, replayed on the real validator + VM built with grammar-extras",
+                               **{k: rep[k] for k in ("grammars", "accepted", "rejected", "model_diverges", "model_guarded", "terminating_spot_runs")}})
+    for v in rep["violations"]:
+        d = {"kind": "replay", "spec": "Validator (%s), grammar-extras" % v["which"], "features": "grammar-extras"}
+        d.update(v)
+        ctx.violation(d)
+    extra = rep["soundness_violations"] + rep["completeness_violations"] - len(rep["violations"])
+    if extra > 0:
+        ctx.violations += extra
     ctx.cov["exhaustive"] = True
     ctx.cov["exhaustive_scope"] = "all grammars of the MC_Validator slices; divergence searched over all inputs over {a, space} up to length 3"
     # impl -> spec
@@ -127,8 +146,8 @@ def run(ctx):
 
 
 def replay(ctx, path):
-    vh = cargo_build()
     body = json.load(open(path))
+    vh = cargo_build(features="extras", variant="extras") if body.get("features") == "grammar-extras" else cargo_build()
     f = os.path.join(ctx.work, "w.ndjson")
     rec = {"text": body["grammar"], "diverges": body.get("which") == "soundness", "guarded": body.get("which") == "completeness",
            "witness": {"start": body.get("start", ""), "inp": body.get("inp", [])}}
